@@ -225,8 +225,38 @@ func c17Alphabet() []c17Op {
 func TestVerif_C17_BFS(t *testing.T) {
 	R := vkit.New("C17")
 	defer R.Finish()
-	R.Rule = "(a) breadth-first search over the reachable states of the real RangeCache on a 5-byte file: every operation of the alphabet (all 21 valid (start,len) reads, 6 invalid reads, 7 valid and 2 invalid SetRange, expire-all, expire-none, fail-next-fetch) is applied in every reachable state up to the depth bound, every map iteration order inside that operation is enumerated; state = sorted cache content + pending-failure flag; oracle per read = exactly the file's bytes, or an error only if the range is invalid or the fetch it needed failed; returned slices are scribbled on (aliasing shows up in later states). (b) all interleavings of concurrent readers / expiry / injected failures. non-trivial = transition leading to a state other than the empty cache"
+	R.Rule = "(a) breadth-first search over the reachable states of the real RangeCache on a 5-byte file: every operation of the alphabet (all 21 valid (start,len) reads, 6 invalid reads, 7 valid and 2 invalid SetRange, expire-all, expire-none, fail-next-fetch) is applied in every reachable state up to the depth bound, every map iteration order inside that operation is enumerated; state = sorted cache content + pending-failure flag; oracle per read = exactly the file's bytes, or an error only if the range is invalid or the fetch it needed failed; returned slices are scribbled on (aliasing shows up in later states). (b) all interleavings of concurrent readers / expiry / injected failures. (c) every valid read, twice, with a remote reader that returns io.EOF together with the last bytes of the file. non-trivial = transition leading to a state other than the empty cache"
 	R.Assume("the cache has no state besides its entry map (entries' LastRead only matters through the two DeleteOldEntries ages used) so states with equal sorted content have equal futures")
+	// (c) the other conforming convention of the remote reader: a fetch that ends exactly at the end of the file
+	// returns all its bytes together with io.EOF. Every valid read on a fresh cache, twice (miss, then hit).
+	if si, _ := vkit.Shard(); si == 0 {
+		size := int64(len(c17File))
+		for start := int64(0); start <= size; start++ {
+			for ln := int64(0); start+ln <= size; ln++ {
+				rc := NewRangeCache(size, "c17-eager-eof", func(p []byte, off int64) (int, error) {
+					if off < 0 || off+int64(len(p)) > size {
+						return 0, fmt.Errorf("c17: remote range out of bounds")
+					}
+					n := copy(p, c17File[off:off+int64(len(p))])
+					if off+int64(n) == size {
+						return n, io.EOF
+					}
+					return n, nil
+				})
+				for pass := 0; pass < 2; pass++ {
+					got, err := rc.GetRange(context.Background(), start, ln)
+					R.Case(ln > 0, "")
+					if ln == 0 {
+						continue
+					}
+					if err != nil || !bytes.Equal(got, c17File[start:start+ln]) {
+						R.Violation("C17|eager-eof-fetcher", fmt.Sprintf("remote reader that returns io.EOF together with the last bytes of the file: GetRange(%d,%d) pass %d -> %v err=%v, the remote holds %v and no fetch failed", start, ln, pass, got, err, c17File[start:start+ln]), map[string]interface{}{"variant": "eager-eof", "start": start, "len": ln})
+					}
+				}
+				rc.Close()
+			}
+		}
+	}
 	ops := c17Alphabet()
 	depth := 9
 	if vkit.Thorough() {
